@@ -205,11 +205,31 @@ pub fn run(o: &DriveOpts, out: &mut dyn Write, tid: usize) -> Value {
 
     // random part ----------------------------------------------------------------------
     let mut twin_alive = false;
+    let mut pending: std::collections::VecDeque<Call> = std::collections::VecDeque::new();
     while ok && rec.events < o.steps {
         let vw = view(&w, 0);
         let r: f64 = rng.gen();
         let ngroups = vw.group_size.len();
-        let call: Option<Call> = if vw.present.len() < 2 || r < 0.16 {
+        let call: Option<Call> = if let Some(c) = pending.pop_front() {
+            Some(c)
+        } else if r > 0.95 && r < 0.97 {
+            // a dangling edge (its target was collected): re-create the target and bind the same edge again
+            let mut cands = vec![];
+            for v1 in &vw.present {
+                for (a, t) in w.g(0).kids(*v1).unwrap_or_default() {
+                    if !vw.present.contains(&t) && t < o.cap {
+                        cands.push((*v1, a, t));
+                    }
+                }
+            }
+            match cands.choose(&mut rng) {
+                Some((v1, a, t)) => {
+                    pending.push_back(Call::Bind { v1: *v1, v2: *t, a: a.clone() });
+                    Some(Call::Add { v: *t })
+                }
+                None => None,
+            }
+        } else if vw.present.len() < 2 || r < 0.16 {
             // add: fresh, present (re-add) or collected ids alike
             let v = if rng.gen_bool(0.25) && !vw.present.is_empty() {
                 *vw.present.choose(&mut rng).unwrap()
